@@ -970,7 +970,14 @@ pub fn ops_for(prop: &str) -> Vec<Op> {
             Op::Fee(0), Op::Fee(1), Op::Fee(2), Op::Fee(3), Op::Coll(1), Op::Meta, Op::RefIn(1), Op::RefIn(3),
             Op::WdAgain(0), Op::WdAgain(2), Op::Wd(4), Op::InAgain(0), Op::In(7, 0), Op::In(7, 1), Op::In(8, 0), Op::In(17, 0),
         ],
-        "C18" | "C16" => vec![
+        // C16 looks at ordering and repetition in the built transaction: items that bring scripts,
+        // datums, reference inputs, signers - one or two per source
+        "C16" => vec![
+            Op::In(0, 0), Op::In(6, 0), Op::In(6, 1), Op::In(10, 0), Op::In(16, 1), Op::In(7, 0), Op::In(7, 1), Op::In(14, 0), Op::In(8, 2), Op::In(11, 0),
+            Op::Out(0), Op::Out(1), Op::Coll(1), Op::Cert(5), Op::Cert(25), Op::Wd(1), Op::Wd(3), Op::Vote(3), Op::Vote(4),
+            Op::Mint(0), Op::Mint(2), Op::ReqSigner(3), Op::RefIn(0), Op::RefIn(1), Op::RefIn(2), Op::ExtraDatum(0), Op::ExtraDatum(1), Op::ExtraDatum(3),
+        ],
+        "C18" => vec![
             Op::In(0, 0), Op::In(2, 0), Op::In(1, 0), Op::In(5, 0), Op::In(13, 0), Op::In(12, 0), Op::In(6, 0), Op::In(6, 1), Op::In(10, 0), Op::In(10, 2), Op::In(16, 3), Op::In(16, 1), Op::In(7, 0), Op::In(7, 1), Op::In(11, 0), Op::In(8, 0), Op::In(8, 2), Op::In(14, 0), Op::In(17, 0), Op::In(17, 1),
             Op::Out(0), Op::Coll(1), Op::Coll(0), Op::Cert(5), Op::Cert(7), Op::Cert(8), Op::Cert(6), Op::Cert(13), Op::Cert(25),
             Op::Wd(0), Op::Wd(1), Op::Wd(3), Op::Vote(0), Op::Vote(1), Op::Vote(2), Op::Vote(3), Op::Vote(4),
@@ -1023,7 +1030,8 @@ pub fn configs_for(prop: &str, tier: Tier) -> Vec<usize> {
                 vec![0, 1, 2, 3, 5, 6, 8]
             }
         }
-        "C18" | "C16" => vec![0, 5, 8],
+        "C18" => vec![0, 5, 8],
+        "C16" => vec![0, 5],
         _ => vec![0],
     }
 }
